@@ -78,6 +78,66 @@ def _eof_test_term(ex, rd: Reader, cond: Term) -> Optional[bool]:
     return None
 
 
+def _countdown_to_eof(ex, rd: Reader, loop, lr) -> bool:
+    """`while left != 0` (or `while left:`) where `left` starts as the length of the region the reader wraps and every iteration takes off exactly what that iteration
+    reads from the reader: the same test as `not reader.eof()`, kept in an integer (reads are exact: a short read raises, so the counter never passes zero)"""
+    from .length import lin
+
+    if lr.cond is None:
+        return False
+    r = rel(lr.cond, True)
+    x = None
+    if r[0] == "rel" and r[1] == "NotEq" and r[3] is not None:
+        for a_, b_ in ((r[2], r[3]), (r[3], r[2])):
+            if is_const(unsnap(b_)) and cval(unsnap(b_)) == 0 and not isinstance(cval(unsnap(b_)), bool):
+                x = unsnap(a_)
+    elif r[0] == "rel" and r[1] == "Truthy":
+        x = unsnap(r[2])
+    if x is None or x.op != "loopvar" or x.args[0] != loop.lid:
+        return False
+    nm = x.args[1]
+    init, nxt = lr.init.get(nm), lr.next.get(nm)
+    if init is None or nxt is None:
+        return False
+    li = lin(init)
+    region_len = None
+    if rd.parent_field is not None:
+        region_len = lin(rd.parent_field.size)
+    if li is None or not (_is_length_of(ex, rd, init) or (region_len is not None and li == region_len)):
+        return False
+    # what one iteration consumes: every read of this reader directly in the loop body (a read in a nested loop or under a test would make the amount vary)
+    total = {1: 0}
+    for it in loop.items:
+        if isinstance(it, RLoop):
+            return False
+        if isinstance(it, RField):
+            if any(f[0] == "if" and f[1] is not lr.cond for f in it.ev.ctx[len(lr_ctx(ex, loop, it)):]):
+                return False
+            ls = lin(it.size)
+            if ls is None:
+                return False
+            for k, v in ls.items():
+                total[k] = total.get(k, 0) + v
+    ln, lx = lin(nxt), lin(x)
+    if ln is None or lx is None:
+        return False
+    want = dict(lx)
+    for k, v in total.items():
+        want[k] = want.get(k, 0) - v
+    norm = lambda d: {k: v for k, v in d.items() if v != 0}
+    return norm(ln) == norm(want)
+
+
+def lr_ctx(ex, loop, it):
+    """the context frames of a read event up to and including the frame of `loop`"""
+    out = []
+    for f in it.ev.ctx:
+        out.append(f)
+        if f[0] == "loop" and f[1] == loop.lid:
+            return out
+    return out
+
+
 def _int_of(f: RField, t: Term, ex=None) -> bool:
     """does term t denote the integer value of field f (directly, through elem lifting, or through a loop variable)?"""
     t = unsnap(t)
@@ -205,6 +265,8 @@ def _match_seq(ex, spec, items, rd: Reader, b: Binding, region: str):
                 raise Mismatch("reader: repeated records of %s are not parsed by a loop" % region, _where(getattr(loop, "ev", None)) if loop else _where(rd.new_ev))
             lr = ex.loops[loop.lid]
             at_eof = _eof_test_term(ex, rd, lr.cond) if lr.cond is not None else None
+            if at_eof is not False and _countdown_to_eof(ex, rd, loop, lr):
+                at_eof = False
             if at_eof is not False:
                 raise Mismatch("reader: loop over %s does not run exactly until the region is exhausted (condition %s)" % (region, show(lr.cond, 4) if lr.cond is not None else "?"), loop.items[0].ev.where if loop.items else "")
             if lr.breaks:
